@@ -139,6 +139,19 @@ def check(ctx):
         ok2 = bool(ret) and any(call_name(c) == 'get' for c in ast.walk(ret[0]) if isinstance(c, ast.Call))
         ctx.ob(rule, fkey(inner, rule, 'success-returns-result'), ok2, inner.where,
                'when the function finishes in time its result is returned', short(ret[0]) if ret else 'missing')
+    # between noticing the timeout and interrupting + joining the worker nothing touches the caller's objects: the
+    # timeout handler reads neither the function nor its arguments (an attribute a callable need not have -
+    # `func.__name__` of a functools.partial - would raise there, before the worker is stopped)
+    if tries:
+        user = set(fn.params[1:]) | ({fn.node.args.vararg.arg} if fn.node.args.vararg else set()) | \
+            ({fn.node.args.kwarg.arg} if fn.node.args.kwarg else set())
+        touched = sorted({x.id for h in tries[0].handlers for st_ in h.body for x in ast.walk(st_)
+                          if isinstance(x, ast.Name) and x.id in user})
+        ctx.ob(rule, fkey(inner, rule, 'timeout-handler-touches-no-caller-object'), not touched, inner.where,
+               'the handler of the pool timeout does not evaluate the function or its arguments (whatever is done '
+               'there runs before the worker is interrupted and joined and must not be able to raise on them)',
+               f'reads {touched}' if touched else 'handler body: ' + '; '.join(short(st_, 40) for h in tries[0].handlers
+                                                                              for st_ in h.body))
     ctx.ob(rule, fkey(inner, rule, 'only-pool-timeout-swallowed'), ok, inner.where,
            'the only exception swallowed around the timed get() is multiprocessing.TimeoutError: an exception of '
            'the function itself propagates to the caller', detail)
